@@ -393,8 +393,56 @@ def dot_segment_scenarios(ctx):
                 ctx.count('dot_segment_scenarios')
 
 
+def degenerate_patterns(ctx):
+    """An empty pattern (alone, in a list, as an empty SPLIT piece, as `exclude=`) denotes nothing in every view: match / globmatch /
+    full_match say no, glob / rglob yield nothing, and an empty exclusion removes nothing."""
+    if ctx.shard != 3 % max(ctx.nshards, 1):
+        ctx.count('degenerate_pattern_checks', 0)
+        return
+    with T.Tree([('a', 'd', None), ('a/b', 'f', None), ('c', 'f', None), ('.h', 'f', None)], 'c16e-') as tr:
+        cwd = os.getcwd()
+        os.chdir(tr.root)
+        try:
+            for fl in (0, WP.GLOBSTAR, WP.GLOBSTAR | WP.DOTGLOB, WP.NEGATE, WP.SPLIT, WP.GLOBSTARLONG | WP.FOLLOW, WP.REALPATH, WP.NEGATE | WP.NEGATEALL, WP.MATCHBASE):
+                for q in ('a/b', 'c', 'a', 'x/y/z'):
+                    for cls in (WP.PurePosixPath, WP.PureWindowsPath, WP.Path):
+                        if cls is not WP.Path and fl & WP.REALPATH:
+                            continue
+                        P_ = cls(q)
+                        for what, call_, want in (
+                                ("match('')", lambda: P_.match('', flags=fl), False), ("match([''])", lambda: P_.match([''], flags=fl), False),
+                                ("globmatch('')", lambda: P_.globmatch('', flags=fl), False), ("full_match(('', ''))", lambda: P_.full_match(('', ''), flags=fl), False),
+                                ("match([])", lambda: P_.match([], flags=fl), False), ("match('zzz|', SPLIT)", lambda: P_.match('zzz|', flags=fl | WP.SPLIT), False),
+                                ("match('*', exclude='')", lambda: P_.match('*', flags=fl, exclude=''), P_.match('*', flags=fl)),
+                                ("match('*', exclude=[])", lambda: P_.match('*', flags=fl, exclude=[]), P_.match('*', flags=fl & ~(WP.NEGATE | WP.NEGATEALL))),
+                                ("globmatch('**', exclude=[''])", lambda: P_.globmatch('**', flags=fl | WP.GLOBSTAR, exclude=['']),
+                                 P_.globmatch('**', flags=(fl | WP.GLOBSTAR) & ~(WP.NEGATE | WP.NEGATEALL)))):
+                            try:
+                                got = call_()
+                            except Exception as e:  # noqa: BLE001
+                                got = f'raised {type(e).__name__}'
+                            ctx.evals()
+                            ctx.count('degenerate_pattern_checks')
+                            if got is not want:
+                                ctx.disagree('an empty pattern / exclusion is not without effect in a pathlib view',
+                                             {'tree': tr.spec, 'path': q, 'class': cls.__name__, 'flags': fl, 'call': what, 'expected': want, 'observed': got})
+                for what, call_ in (("glob('')", lambda: list(WP.Path('.').glob('', flags=fl))), ("rglob('')", lambda: list(WP.Path('.').rglob('', flags=fl))),
+                                    ("glob([''])", lambda: list(WP.Path('.').glob([''], flags=fl))), ("rglob([])", lambda: list(WP.Path('.').rglob([], flags=fl)))):
+                    try:
+                        got = [str(x) for x in call_()]
+                    except Exception as e:  # noqa: BLE001
+                        got = f'raised {type(e).__name__}'
+                    ctx.count('degenerate_pattern_checks')
+                    if got != []:
+                        ctx.disagree('an empty pattern yields something in a pathlib view', {'tree': tr.spec, 'flags': fl, 'call': what, 'observed': got})
+        finally:
+            os.chdir(cwd)
+        ctx.mark_nontrivial(('degenerate-patterns',))
+
+
 def run(ctx):
     quick = ctx.quick
+    degenerate_patterns(ctx)
     fixed_scenarios(ctx)
     dot_segment_scenarios(ctx)
     k = 0
